@@ -2,5 +2,5 @@ package main
 
 func allGens(c *ctx) []*gen {
 	return []*gen{genProto(c), genProtoAdv(c), genRlp(c), genRlpAdv(c), genTxOutObj(c), genOutPointObj(c), genTerminiObj(c),
-		genTxMon(c), genHeaderMon(c), genWoHeaderMon(c), genWorkObjectMon(c), genStorageMon(c), genP2PMon(c), genRawKeys(c)}
+		genTxMon(c), genHeaderMon(c), genWoHeaderMon(c), genWorkObjectMon(c), genStorageMon(c), genP2PMon(c), genRawKeys(c), genAliasMon(c), genRetainMon(c)}
 }
